@@ -152,14 +152,14 @@ def judge(t):
         F.update(x for x in scn['requested'] if x not in supplied)
     if 'NO-SUCH-MIB' in requested and 'NO-SUCH-MIB' not in supplied:
         F.add('NO-SUCH-MIB')
-    if not F and opts.get('writeMibs', True) and not scn.get('writer_fail') and not any(c.site == 'writer.putData' and not c.ok for c in t.calls):
+    if not F and not cores and opts.get('writeMibs', True) and not scn.get('writer_fail') and not any(c.site == 'writer.putData' and not c.ok for c in t.calls):
         for m, c in sorted(supplied.items()):
             if m in gen_ok or m in fresh:
                 continue
             if str(R.get(m)) != 'borrowed' or not any(p.ok for p in puts.get(m, [])):
                 V('C19.3-verbatim', 'borrowed %s was not written/reported borrowed (%s) although no failure remains' % (m, R.get(m)), what='borrowed-not-written')
     # ... and then nothing else is held back either: every module that was generated gets written
-    if not F and opts.get('writeMibs', True) and not scn.get('writer_fail') and not any(c.site == 'writer.putData' and not c.ok for c in t.calls):
+    if not F and not cores and opts.get('writeMibs', True) and not scn.get('writer_fail') and not any(c.site == 'writer.putData' and not c.ok for c in t.calls):
         for m in sorted(gen_ok):
             if m in supplied and m not in gen_text:
                 continue
